@@ -32,10 +32,10 @@ Theorem C17_shape_implies_precedence : forall stages, stages_ok stages = true ->
 Proof. exact precedence. Qed.
 Print Assumptions C17_shape_implies_precedence.
 
-(* non-vacuity: 46 settings are covered; loading the file before the environment, or registering a flag
+(* non-vacuity: at least 46 settings are covered (more when options are added); loading the file before the environment, or registering a flag
    with another field's value as default, is rejected by the shape check *)
 Example C17_instances :
-  length (reg_pairs G.stages) = 46%nat /\
+  (46 <=? length (reg_pairs G.stages))%nat = true /\
   stages_ok [StFile; StEnv; StReg "A" "a" DCurrent; StParse] = false /\
   stages_ok [StEnv; StFile; StReg "A" "a" DCurrent; StReg "B" "b" (DField "A"); StParse] = false /\
   stages_ok [StEnv; StFile; StParse; StReg "A" "a" DCurrent] = false.
